@@ -51,7 +51,7 @@ def rule_scale(chk, prog):
          and util.callee_name(vn.a[0]) == 'to' and vn.a[0].a[0].a[0] == Term('bin', '/', q, sn[0]) and sym.show(vn.a[0].a[1][0]).endswith('dimensionless'))
   chk.check(okn, rule, f'{SC}.Scale.nondimensionalize = (quantity / scaling_factor(quantity.dimensionality)).to(dimensionless).magnitude', sym.show(vn), (fn.file, fn.lineno))
   okd = (len(set(sd)) == 1 and util.call_args(sd[0]) == [Term('attr', unit, 'dimensionality')] and vd.k == 'call' and util.callee_name(vd) == 'to' and list(vd.a[1]) == [unit]
-         and vd.a[0].a[0] == Term('bin', '*', val, sd[0]))
+         and sorted(map(sym.show, match.plain_factors(vd.a[0].a[0]))) == sorted(map(sym.show, [val, sd[0]])))
   chk.check(okd, rule, f'{SC}.Scale.dimensionalize = (value · scaling_factor(unit.dimensionality)).to(unit): the same factor, multiplied instead of divided', sym.show(vd), (fd.file, fd.lineno))
   ev2 = sym.Evaluator(prog)
   f = c.find_method('_scaling_factor')
